@@ -175,7 +175,9 @@ Tick == /\ Mode = "expiry" /\ clock < 6 /\ Len(h) < Depth
         /\ UNCHANGED << cfg, cache, pos, sched, resps, viol >>
 
 Other == /\ Mode = "expiry" /\ Len(h) < Depth
-         /\ LET stp == ScriptStep("e9", MkReq(0, 1, 900 + Len(h), << SegAB >>, None, None, << >>, 0), AppV(69, << 1 >>, << >>))
+         \* unrelated traffic: a request on another key whose reply is itself served block-wise
+         \* (so it goes through every cache code path) - it must not keep idle entries alive
+         /\ LET stp == ScriptStep("e9", MkReq(0, 1, 900 + Len(h), << SegAB >>, None, Bv(0, FALSE, 0), << >>, 0), AppV(69, Body(40, 7), << >>))
                 c == Call(cache, clock, cfg.M, stp) IN
             /\ cache' = c.cache /\ h' = Append(h, stp) /\ last' = [k |-> "other"]
             /\ viol' = viol \o Check(OthersUntouched(Purged(cache, clock, TTL), c.cache, c.key, clock), "another key's entry changed")
